@@ -90,14 +90,61 @@ IDS = Ids()
 def install_seams():
     import chuk_mcp.server.session.memory as memory
     import chuk_mcp.server.session.base as base
-    memory.time = types.SimpleNamespace(time=CLOCK.time)
-    base.uuid = types.SimpleNamespace(uuid4=IDS.uuid4)
+    class _Proxy:
+        """a module stand-in: the named attributes are ours, everything else is the real module's"""
+
+        def __init__(self, real, **over):
+            self.__dict__["_real"] = real
+            self.__dict__.update(over)
+
+        def __getattr__(self, name):
+            return getattr(self._real, name)
+
+    import time as _time
+    memory.time = _Proxy(_time, time=CLOCK.time)
+    base.uuid = _Proxy(real_uuid, uuid4=IDS.uuid4)
     # the seams took: a fresh manager hands out id 0 at the fake time
     CLOCK.now, IDS.n = 41, 0
-    m = memory.InMemorySessionManager()
-    sid = m.create_session({}, "v")
+    try:
+        m = memory.InMemorySessionManager()
+        sid = m.create_session({}, "v")
+    except Exception:      # noqa: BLE001 - whatever the tree under test does with the replaced names
+        return False
     if sid != "0" * 32 or m.sessions[sid].last_activity != 41.0 or m.sessions[sid].created_at != 41.0:
-        raise lib.HarnessError("clock / uuid4 replacement did not take effect")
+        return False
+    return True
+
+
+def id_supply_probe(ctx):
+    """The model's id supply is an INJECTIVE sequence (the uuid4 assumption).  What must hold of the real supply, whatever it
+    is built from: ids of sessions that are live at the same time are distinct, also when the application reseeds the global
+    `random` module between creations (application code does that; os.urandom-based uuid4 is unaffected by it)."""
+    import random as _random
+    import importlib
+    import uuid as _uuid
+    import chuk_mcp.server.session.base as base
+    import chuk_mcp.server.session.memory as memory
+    saved = base.uuid
+    base.uuid = _uuid                        # the real module, not the counter
+    try:
+        for seeds in ([None] * 6, [7, 7, 7], [1, 2, 1, 2], [42] * 5, [0, None, 0]):
+            m = memory.InMemorySessionManager()
+            ids = []
+            for sd in seeds:
+                if sd is not None:
+                    _random.seed(sd)
+                ids.append(m.create_session({"n": len(ids)}, "2025-06-18"))
+            case = {"id-supply": {"random.seed before each create": seeds}}
+            ctx.case(case, nontrivial=True)
+            ctx.count("id-supply:" + ("reseeded" if any(x is not None for x in seeds) else "untouched"))
+            ctx.spec_total += 1
+            if len(set(ids)) != len(ids) or len(m.sessions) != len(ids):
+                ctx.spec_violation("session-id-repeated-while-live", case,
+                                   f"{len(ids)} creations, {len(set(ids))} distinct ids, {len(m.sessions)} sessions in the store: "
+                                   f"a live session was overwritten")
+    finally:
+        base.uuid = saved
+        _random.seed()
 
 
 def sid_str(k):
@@ -466,7 +513,15 @@ def check_batch(ctx, batch, model, spec):
 
 
 def explore(ctx, model, spec):
-    install_seams()
+    id_supply_probe(ctx)
+    seam = install_seams()
+    if not ctx.escalated or seam:
+        ctx.oblige("tie:session ids are drawn from uuid.uuid4 and the clock from time.time (the seams the model-based run replaces)",
+                   seam, "" if seam else "generate_session_id / time.time no longer go through the replaced names: the model's "
+                                        "injective id supply is not tied to the code")
+    if not seam:
+        ctx.escalated = True
+        return
     prepare_messages()
     depth = ctx.budget(4, 5)
     batch = []
@@ -531,7 +586,7 @@ def run(ctx):
         ctx.escalated = True
         explore(ctx, model, spec)
     for dim in ("op:", "exhaustive:", "seeded:"):
-        if len([k for k in ctx.hist if k.startswith(dim)]) < 2:
+        if len([k for k in ctx.hist if k.startswith(dim)]) < 2 and not ctx.broken_obligations:
             raise lib.HarnessError(f"generator dimension {dim} came out constant")
     if ctx.thorough:
         lib.coqchk(ctx, "C19")
